@@ -14,12 +14,19 @@ use smoltcp::time::Instant;
 use smoltcp::wire::{HardwareAddress, IpAddress, IpCidr, Ipv4Address};
 
 const LOCAL: [u8; 4] = [10, 0, 0, 1];
+/// a second address of the interface in the same subnet (not the one source selection prefers)
+const LOCAL2: [u8; 4] = [10, 0, 0, 3];
 const PEER: [u8; 4] = [10, 0, 0, 2];
 const LPORT: u16 = 80;
 const PPORT: u16 = 40000;
 
 /// Independent segment builder: IPv4 + TCP from the peer to the socket.
 pub fn build_seg(seq: u32, ack: Option<u32>, flags: u8, win: u16, opts: &[u8], payload: &[u8]) -> Vec<u8> {
+    build_seg_to(LOCAL, seq, ack, flags, win, opts, payload)
+}
+
+/// the same, addressed to `dst`
+pub fn build_seg_to(dst: [u8; 4], seq: u32, ack: Option<u32>, flags: u8, win: u16, opts: &[u8], payload: &[u8]) -> Vec<u8> {
     let mut o = opts.to_vec();
     while o.len() % 4 != 0 {
         o.push(0);
@@ -34,7 +41,7 @@ pub fn build_seg(seq: u32, ack: Option<u32>, flags: u8, win: u16, opts: &[u8], p
     b[8] = 64;
     b[9] = 6;
     b[12..16].copy_from_slice(&PEER);
-    b[16..20].copy_from_slice(&LOCAL);
+    b[16..20].copy_from_slice(&dst);
     let c = !wc::rfc1071_sum(&[&b[..20]]);
     b[10] = (c >> 8) as u8;
     b[11] = c as u8;
@@ -55,7 +62,7 @@ pub fn build_seg(seq: u32, ack: Option<u32>, flags: u8, win: u16, opts: &[u8], p
     }
     let mut ph = vec![];
     ph.extend_from_slice(&PEER);
-    ph.extend_from_slice(&LOCAL);
+    ph.extend_from_slice(&dst);
     ph.extend_from_slice(&[0, 6, ((thl + payload.len()) >> 8) as u8, (thl + payload.len()) as u8]);
     let c = !wc::rfc1071_sum(&[&ph, &b[20..]]);
     b[36] = (c >> 8) as u8;
@@ -176,6 +183,9 @@ pub struct RxCfg {
     /// alphabet includes reads during which the device refuses to transmit (the window update
     /// that follows the read never reaches the wire)
     pub bp: bool,
+    /// the peer's SYN already carries the first `syn_data` octets of its stream (legal, RFC 9293
+    /// 3.10.7.2: they may be kept or ignored, but what is ignored must not be acknowledged)
+    pub syn_data: usize,
 }
 
 #[derive(Clone, Debug, PartialEq)]
@@ -340,7 +350,8 @@ impl Harness for Rx {
                     panic!("stray segments moved the listening socket to {}", w.state());
                 }
             }
-            frames = w.ingress_single(build_seg(p, None, wc::TCP_SYN, 1000, &ws_opt, &[]));
+            let syn_payload: Vec<u8> = (0..cfg.syn_data).map(stream_byte).collect();
+            frames = w.ingress_single(build_seg(p, None, wc::TCP_SYN, 1000, &ws_opt, &syn_payload));
             frames.extend(w.egress());
             let sa = frames.iter().filter_map(|f| parse_out(f)).find(|t| t.has(wc::TCP_SYN)).expect("SYN-ACK");
             iss = sa.seq;
@@ -373,6 +384,11 @@ impl Harness for Rx {
             reset: false,
             pending: vec![],
         };
+        // octets that travelled on the SYN were sent before any window was advertised: whether the
+        // socket keeps them is its choice (lenient), so they count as eligible
+        for i in 0..cfg.syn_data.min(cfg.l) {
+            h.eligible[i] = true;
+        }
         h.observe(&frames);
         if h.w.state() != State::Established {
             h.pending.push(Viol::new("MACHINERY/handshake-failed", format!("state {}", h.w.state())));
@@ -492,7 +508,7 @@ impl Harness for Rx {
 pub fn rx_configs(tier: Tier) -> Vec<(RxCfg, usize)> {
     let mut v = vec![];
     let (d_small, d_big) = if tier == Tier::Quick { (6, 3) } else { (9, 4) };
-    let base = RxCfg { name: "srv", rx: 4, l: 6, peer_isn: 0xffff_fffd, server: true, wscale: false, peer_ws: 0, reuse: false, stray: false, bp: false };
+    let base = RxCfg { name: "srv", rx: 4, l: 6, peer_isn: 0xffff_fffd, server: true, wscale: false, peer_ws: 0, reuse: false, stray: false, bp: false, syn_data: 0 };
     for &(rx, l) in &[(2usize, 6usize), (3, 6), (4, 6), (8, 10), (64, 10)] {
         v.push((RxCfg { rx, l, ..base.clone() }, d_small));
     }
@@ -505,6 +521,8 @@ pub fn rx_configs(tier: Tier) -> Vec<(RxCfg, usize)> {
     // reads whose window update is lost inside the device
     v.push((RxCfg { name: "blocked-window-update", rx: 4, l: 8, bp: true, ..base.clone() }, d_small));
     v.push((RxCfg { name: "blocked-window-update-rx64", rx: 64, l: 130, bp: true, peer_isn: 0x7fff_ffc0, ..base.clone() }, d_small.min(5)));
+    // the SYN carries data
+    v.push((RxCfg { name: "data-on-syn", rx: 8, l: 10, syn_data: 3, ..base.clone() }, d_small));
     // stray FINs / data reach the listening socket before the handshake
     v.push((RxCfg { name: "stray-before-syn", rx: 8, l: 6, stray: true, ..base.clone() }, d_small));
     // socket objects that served a connection before
@@ -579,6 +597,9 @@ pub struct FsmCfg {
     /// RST guard can (the socket accepts a RST only in [RCV.NXT, last advertised edge), a subset
     /// of the observed [last ACK sent, last advertised edge)).
     pub rst_mode: bool,
+    /// the interface owns two addresses of one subnet and the peer talks to the SECOND one
+    /// (the one source-address selection would not pick for this peer)
+    pub second_addr: bool,
 }
 
 #[derive(Clone, Debug, PartialEq)]
@@ -604,6 +625,9 @@ pub enum FsmEv {
     Plus10s,
     /// the clock advances by 1 s and nobody polls (only in `rst_mode`)
     Sleep1s,
+    /// like ToPollAt, but the device refuses every frame during that poll (a retransmission
+    /// that is due cannot leave); the device accepts again afterwards
+    ToPollAtBlocked,
 }
 
 #[derive(Clone, Debug, Default)]
@@ -845,6 +869,11 @@ impl Harness for Fsm {
         if cfg.rst_mode {
             w.sock().set_ack_delay(Some(smoltcp::time::Duration::from_millis(10)));
         }
+        if cfg.second_addr {
+            w.iface.update_ip_addrs(|a| {
+                a.push(IpCidr::new(IpAddress::Ipv4(Ipv4Address::new(LOCAL2[0], LOCAL2[1], LOCAL2[2], LOCAL2[3])), 24)).unwrap();
+            });
+        }
         Fsm { cfg: cfg.clone(), w, obs: Obs::default(), pending: vec![] }
     }
     fn enabled(&self) -> Vec<(FsmEv, u32)> {
@@ -885,6 +914,7 @@ impl Harness for Fsm {
         }
         v.push((FsmEv::ToPollAt, 0));
         v.push((FsmEv::Plus10s, 0));
+        v.push((FsmEv::ToPollAtBlocked, 0));
         if self.w.state() == State::Closed {
             return v; // a closed socket accepts no segment; nothing to learn from sending any
         }
@@ -952,7 +982,7 @@ impl Harness for Fsm {
         match ev {
             FsmEv::Seg { flags, seq, ack, len } => {
                 let payload = vec![0x5a; *len];
-                let seg = build_seg(*seq, *ack, *flags, self.cfg.peer_win, if flags & wc::TCP_SYN != 0 { &[2, 4, 5, 180] } else { &[] }, &payload);
+                let seg = build_seg_to(if self.cfg.second_addr { LOCAL2 } else { LOCAL }, *seq, *ack, *flags, self.cfg.peer_win, if flags & wc::TCP_SYN != 0 { &[2, 4, 5, 180] } else { &[] }, &payload);
                 let pre = self.w.state();
                 if pre == State::Listen {
                     self.obs.was_listening = true;
@@ -1018,6 +1048,16 @@ impl Harness for Fsm {
             FsmEv::Sleep1s => {
                 self.w.now += 1_000_000;
             }
+            FsmEv::ToPollAtBlocked => {
+                if let Some(t) = self.w.poll_at() {
+                    if t > self.w.now {
+                        self.w.now = t;
+                    }
+                }
+                self.w.dev.tx_budget = Some(0);
+                self.egress_step();
+                self.w.dev.tx_budget = None;
+            }
         }
         out.append(&mut self.pending);
     }
@@ -1032,16 +1072,18 @@ impl Harness for Fsm {
 pub fn fsm_configs(tier: Tier) -> Vec<(FsmCfg, usize)> {
     match tier {
         Tier::Quick => vec![
-            (FsmCfg { name: "full", peer_isn: 0xffff_fff0, rx: 8, reduced: false, peer_win: 500, send_len: 1, rst_mode: false }, 5),
-            (FsmCfg { name: "reduced", peer_isn: 5000, rx: 8, reduced: true, peer_win: 500, send_len: 1, rst_mode: false }, 7),
-            (FsmCfg { name: "reduced-win1-send3", peer_isn: 5000, rx: 8, reduced: true, peer_win: 1, send_len: 3, rst_mode: false }, 6),
-            (FsmCfg { name: "rst-window-zwp", peer_isn: 5000, rx: 8, reduced: true, peer_win: 0, send_len: 3, rst_mode: true }, 7),
+            (FsmCfg { name: "full", peer_isn: 0xffff_fff0, rx: 8, reduced: false, peer_win: 500, send_len: 1, rst_mode: false, second_addr: false }, 5),
+            (FsmCfg { name: "reduced", peer_isn: 5000, rx: 8, reduced: true, peer_win: 500, send_len: 1, rst_mode: false, second_addr: false }, 7),
+            (FsmCfg { name: "reduced-win1-send3", peer_isn: 5000, rx: 8, reduced: true, peer_win: 1, send_len: 3, rst_mode: false, second_addr: false }, 6),
+            (FsmCfg { name: "rst-window-zwp", peer_isn: 5000, rx: 8, reduced: true, peer_win: 0, send_len: 3, rst_mode: true, second_addr: false }, 7),
+            (FsmCfg { name: "reduced-second-address", peer_isn: 5000, rx: 8, reduced: true, peer_win: 500, send_len: 1, rst_mode: false, second_addr: true }, 5),
         ],
         Tier::Thorough => vec![
-            (FsmCfg { name: "full", peer_isn: 0xffff_fff0, rx: 8, reduced: false, peer_win: 500, send_len: 1, rst_mode: false }, 5),
-            (FsmCfg { name: "reduced", peer_isn: 5000, rx: 8, reduced: true, peer_win: 500, send_len: 1, rst_mode: false }, 8),
-            (FsmCfg { name: "reduced-win1-send3", peer_isn: 5000, rx: 8, reduced: true, peer_win: 1, send_len: 3, rst_mode: false }, 8),
-            (FsmCfg { name: "rst-window-zwp", peer_isn: 5000, rx: 8, reduced: true, peer_win: 0, send_len: 3, rst_mode: true }, 9),
+            (FsmCfg { name: "full", peer_isn: 0xffff_fff0, rx: 8, reduced: false, peer_win: 500, send_len: 1, rst_mode: false, second_addr: false }, 5),
+            (FsmCfg { name: "reduced", peer_isn: 5000, rx: 8, reduced: true, peer_win: 500, send_len: 1, rst_mode: false, second_addr: false }, 8),
+            (FsmCfg { name: "reduced-win1-send3", peer_isn: 5000, rx: 8, reduced: true, peer_win: 1, send_len: 3, rst_mode: false, second_addr: false }, 8),
+            (FsmCfg { name: "rst-window-zwp", peer_isn: 5000, rx: 8, reduced: true, peer_win: 0, send_len: 3, rst_mode: true, second_addr: false }, 9),
+            (FsmCfg { name: "reduced-second-address", peer_isn: 5000, rx: 8, reduced: true, peer_win: 500, send_len: 1, rst_mode: false, second_addr: true }, 7),
         ],
     }
 }
